@@ -530,7 +530,7 @@ class SpecModel:
         if isinstance(node, ast.Name):
             if node.id in env:
                 return self.force(env[node.id])
-            if node.id in ("list", "range", "len", "all", "any", "int", "bool", "dict", "tuple",
+            if node.id in ("list", "range", "len", "all", "any", "int", "bool", "dict", "tuple", "frozenset",
                            "sorted", "set", "isinstance", "hasattr", "callable", "str", "type"):
                 return ExternalV("builtins." + node.id)
             if node.id == "any":
@@ -550,6 +550,8 @@ class SpecModel:
             left, right = ev(node.left), ev(node.right)
             if isinstance(node.op, ast.BitOr) and isinstance(left, DictV) and isinstance(right, DictV):
                 return DictV(left.items + right.items, node, mod)
+            if isinstance(node.op, ast.Add) and isinstance(left, TupleV) and isinstance(right, TupleV):
+                return TupleV(list(left.items) + list(right.items))
             a, b = as_int(left), as_int(right)
             if a is None or b is None:
                 return Opaque("binop " + norm(node)[:60])
@@ -668,6 +670,14 @@ class SpecModel:
                 return Opaque("range with step")
             if f.name == "enum.auto":
                 return ExternalV("enum.auto()")
+            if f.name in ("builtins.tuple", "builtins.list", "builtins.set", "builtins.frozenset") and len(args) == 1 and not kwargs \
+                    and isinstance(args[0], TupleV):
+                items = list(args[0].items)
+                if f.name.endswith("set"):   # a set of names: order is not part of the value
+                    if not all(isinstance(x, (str, int)) for x in items):
+                        return Opaque(f"{f.name} of non-literals")
+                    items = sorted(set(items), key=repr)
+                return TupleV(items)
             if f.name == "collections.defaultdict":
                 if len(args) == 2 and isinstance(args[1], DictV):
                     d = DictV(args[1].items, args[1].node, mod)
